@@ -85,6 +85,7 @@ mod evhook {
 // panic capture
 // ---------------------------------------------------------------------------------------------
 thread_local! { static LAST_PANIC: RefCell<String> = RefCell::new(String::new()); }
+thread_local! { static OUTBUF: RefCell<Vec<u8>> = RefCell::new(Vec::new()); }
 fn install_panic_hook() {
     std::panic::set_hook(Box::new(|info| {
         let loc = info.location().map(|l| format!("{}:{}", l.file().rsplit('/').next().unwrap_or("?"), l.line())).unwrap_or_else(|| "?".into());
@@ -248,14 +249,16 @@ fn spin_guard(s: &Snap, op: u8, n: usize) -> bool {
 #[derive(Clone, Debug)]
 pub enum Call {
     Set(u32, u32),
-    Stream { op: u8, data: Vec<u8>, cap: usize },
+    /// `data` = the prefix of the offered input that matters (what was consumed; bytes behind it
+    /// were only offered), `offered` = available_in
+    Stream { op: u8, data: Vec<u8>, offered: usize, cap: usize },
     Take(usize),
 }
 impl Call {
     pub fn token(&self) -> String {
         match self {
             Call::Set(i, v) => format!("P:{}:{}", i, v),
-            Call::Stream { op, data, cap } => format!("C:{}:{}:{}", op, hex(data), cap),
+            Call::Stream { op, data, offered, cap } => if *offered == data.len() { format!("C:{}:{}:{}", op, hex(data), cap) } else { format!("C:{}:{}+{}:{}", op, hex(data), offered - data.len(), cap) },
             Call::Take(n) => format!("T:{}", n),
         }
     }
@@ -263,7 +266,12 @@ impl Call {
         let f: Vec<&str> = t.split(':').collect();
         match f.as_slice() {
             ["P", i, v] => Some(Call::Set(i.parse().ok()?, v.parse().ok()?)),
-            ["C", o, d, c] => Some(Call::Stream { op: o.parse().ok()?, data: unhex(d), cap: c.parse().ok()? }),
+            ["C", o, d, c] => {
+                let (h, extra) = match d.split_once('+') { Some((h, e)) => (h, e.parse::<usize>().ok()?), None => (*d, 0) };
+                let data = unhex(h);
+                let offered = data.len() + extra;
+                Some(Call::Stream { op: o.parse().ok()?, data, offered, cap: c.parse().ok()? })
+            }
             ["T", n] => Some(Call::Take(n.parse().ok()?)),
             _ => None,
         }
@@ -310,12 +318,13 @@ impl Session {
             // this call would never return on a tree without the last_flush_pos_ fix
             // (/verif/proposed/metadata-q01-catable-livelock.md): do not make it
             self.dead = Some("livelock:metadata-q01-catable process_metadata spins: quality 0/1 + catable never advances last_flush_pos_".into());
-            self.push(Rec { call: Call::Stream { op, data: data.to_vec(), cap }, before: before.clone(), ret: false, consumed: 0, produced: vec![], after: before, events: vec![], panicked: true });
+            self.push(Rec { call: Call::Stream { op, data: vec![], offered: data.len(), cap }, before: before.clone(), ret: false, consumed: 0, produced: vec![], after: before, events: vec![], panicked: true });
             return (false, 0, 0);
         }
         let mut avail_in = data.len();
         let mut in_off = 0usize;
-        let mut buf = vec![0xa5u8; cap];
+        let mut buf = OUTBUF.with(|b| core::mem::take(&mut *b.borrow_mut()));
+        if buf.len() < cap { buf.resize(cap, 0xa5); }
         let mut avail_out = cap;
         let mut out_off = 0usize;
         let mut total: Option<usize> = None;
@@ -323,25 +332,30 @@ impl Session {
         let enc = &mut self.enc;
         let r = catch_unwind(AssertUnwindSafe(|| {
             let mut cb = |_: &mut brotli::interface::PredictionModeContextMap<brotli::InputReferenceMut>, _: &mut [brotli::interface::StaticCommand], _: brotli::interface::InputPair, _: &mut StandardAlloc| ();
-            enc.compress_stream(op_of(op), &mut avail_in, data, &mut in_off, &mut avail_out, &mut buf, &mut out_off, &mut total, &mut cb)
+            enc.compress_stream(op_of(op), &mut avail_in, data, &mut in_off, &mut avail_out, &mut buf[..cap], &mut out_off, &mut total, &mut cb)
         }));
         let events = evhook::take();
-        let call = Call::Stream { op, data: data.to_vec(), cap };
-        match r {
+        let res = match r {
             Err(_) => {
                 self.dead = Some(last_panic());
-                self.push(Rec { call, before: before.clone(), ret: false, consumed: 0, produced: vec![], after: before, events, panicked: true });
+                let call = Call::Stream { op, data: data[..data.len().min(64)].to_vec(), offered: data.len(), cap };
+                if self.record { self.recs.push(Rec { call, before: before.clone(), ret: false, consumed: 0, produced: vec![], after: before, events, panicked: true }); }
                 (false, 0, 0)
             }
             Ok(ret) => {
                 let out_off = out_off.min(cap);
-                let produced = buf[..out_off].to_vec();
-                self.delivered.extend_from_slice(&produced);
-                let after = snap(&self.enc);
-                self.push(Rec { call, before, ret, consumed: in_off, produced, after, events, panicked: false });
+                self.delivered.extend_from_slice(&buf[..out_off]);
+                if self.record {
+                    let after = snap(&self.enc);
+                    let keep = in_off.min(data.len());
+                    let call = Call::Stream { op, data: data[..keep].to_vec(), offered: data.len(), cap };
+                    self.recs.push(Rec { call, before, ret, consumed: in_off, produced: buf[..out_off].to_vec(), after, events, panicked: false });
+                }
                 (ret, in_off, out_off)
             }
-        }
+        };
+        OUTBUF.with(|b| *b.borrow_mut() = buf);
+        res
     }
     pub fn take(&mut self, size: usize) -> usize {
         if self.dead.is_some() { return 0; }
@@ -548,7 +562,7 @@ pub fn drive(cfg: &Cfg, reqs: &[Req], sched: &OutSched, record: bool) -> RunOut 
     for rq in reqs {
         let mut pos = 0usize;
         let mut idle = 0usize;
-        let bound = 1000 + 40 * (rq.data.len() + out.sess.enc.available_out_ + 16);
+        let bound = 4000 + 8 * (rq.data.len() + out.sess.enc.available_out_ + (out.sess.enc.input_pos_ - out.sess.enc.last_flush_pos_) as usize);
         let mut calls_here = 0usize;
         loop {
             k += 1;
@@ -565,6 +579,10 @@ pub fn drive(cfg: &Cfg, reqs: &[Req], sched: &OutSched, record: bool) -> RunOut 
             if consumed > rq.data.len() - pos || produced > cap { out.fail = Some(("stream:cursor".into(), format!("consumed {} of {}, produced {} of {}", consumed, rq.data.len() - pos, produced, cap))); return out; }
             if rq.op != OP_METADATA { out.fed.extend_from_slice(&rq.data[pos..pos + consumed]); }
             pos += consumed;
+            // completion is judged on the state in which the call RETURNED (C04: "a flush call
+            // returns with all of its input consumed and no output pending"); FINISH may also
+            // complete by draining with take_output
+            let s_call = snap(&out.sess.enc);
             let mut took = 0usize;
             if sched.take_every != 0 && k % sched.take_every == 0 {
                 took = out.sess.take(sched.take_sizes[k % sched.take_sizes.len()]);
@@ -575,7 +593,8 @@ pub fn drive(cfg: &Cfg, reqs: &[Req], sched: &OutSched, record: bool) -> RunOut 
                 }
             }
             let s = snap(&out.sess.enc);
-            if pos == rq.data.len() && abstract_done(&s, rq.op) {
+            let done = pos == rq.data.len() && (abstract_done(&s_call, rq.op) || (rq.op == OP_FINISH && s.fin));
+            if done {
                 if rq.op == OP_FLUSH { out.marks.push(Mark { kind: 1, out_len: out.sess.delivered.len(), in_len: out.fed.len(), md_len: 0, md: vec![] }); }
                 if rq.op == OP_METADATA { out.marks.push(Mark { kind: 3, out_len: out.sess.delivered.len(), in_len: out.fed.len(), md_len: rq.data.len(), md: rq.data.clone() }); }
                 break;
@@ -589,6 +608,35 @@ pub fn drive(cfg: &Cfg, reqs: &[Req], sched: &OutSched, record: bool) -> RunOut 
     out
 }
 
+/// streaming decode of a PREFIX of a stream: feed everything, keep draining output while the
+/// decoder has some; returns (state, output): 0 = stream complete, 1 = wants more input,
+/// 2 = error
+pub fn decode_prefix(data: &[u8], max_out: usize) -> (u8, Vec<u8>) {
+    use brotli::{BrotliDecompressStream, BrotliResult, BrotliState};
+    let r = catch_unwind(|| {
+        let mut state = BrotliState::new(StandardAlloc::default(), StandardAlloc::default(), StandardAlloc::default());
+        let mut out: Vec<u8> = Vec::new();
+        let mut buf = vec![0u8; 1 << 16];
+        let mut avail_in = data.len();
+        let mut in_off = 0usize;
+        loop {
+            let mut avail_out = buf.len();
+            let mut out_off = 0usize;
+            let mut written = 0usize;
+            let r = BrotliDecompressStream(&mut avail_in, &mut in_off, data, &mut avail_out, &mut out_off, &mut buf, &mut written, &mut state);
+            out.extend_from_slice(&buf[..out_off]);
+            if out.len() > max_out { return (2u8, out); }
+            match r {
+                BrotliResult::ResultSuccess => return (if avail_in == 0 { 0 } else { 2 }, out),
+                BrotliResult::NeedsMoreOutput => continue,
+                // output may still be held back when the buffer was filled exactly
+                BrotliResult::NeedsMoreInput => { if out_off == 0 { return (1, out); } else { continue; } }
+                BrotliResult::ResultFailure => return (2, out),
+            }
+        }
+    });
+    r.unwrap_or((2, vec![]))
+}
 fn dead_signature(msg: &str) -> String {
     let loc = msg.split(' ').next().unwrap_or("?");
     if loc.starts_with("livelock:") { format!("stream:{}", loc) }
@@ -628,7 +676,10 @@ fn metadata_header_ok(b: &[u8], end: usize, len: usize) -> bool {
     false
 }
 
+thread_local! { static TASK: RefCell<String> = RefCell::new(String::new()); }
+fn set_task(t: String) { TASK.with(|x| *x.borrow_mut() = t); }
 fn case_json(cfg: &Cfg, sess: &Session, extra: &str) -> String {
+    let extra = &format!("{} [{}]", extra, TASK.with(|x| x.borrow().clone()));
     let line = sess.history_line();
     let line = if line.len() > 6000 { format!("{}…({} chars)", &line[..6000], line.len()) } else { line };
     format!("{{\"cfg\": {}, \"history\": {}, \"extra\": {}}}", jstr(&format!("{:?}", cfg.sets)), jstr(&line), jstr(extra))
@@ -695,6 +746,8 @@ fn judge_plan(cfg: &Cfg, ro: &RunOut, rep: &mut Report, c01: bool, c04: bool) {
     }
     let s = snap(&ro.sess.enc);
     let large = s.lw;
+    // a 1-byte metadata block is a known trigger of its own (metadata-len1-header.md)
+    let len1 = if ro.marks.iter().any(|m| m.kind == 3 && m.md_len == 1) { ":metadata-len1" } else { "" };
     if ro.sess.recs.iter().any(|r| matches!(r.call, Call::Stream { .. }) && r.ret && (r.consumed > 0 || !r.produced.is_empty())) || !ro.sess.record { rep.nontrivial += 1; }
     rep.count(&format!("q{}", s.q));
     rep.count(&format!("lgwin{}", s.w));
@@ -712,7 +765,7 @@ fn judge_plan(cfg: &Cfg, ro: &RunOut, rep: &mut Report, c01: bool, c04: bool) {
         rep.add("bytes_in", ro.fed.len() as u64);
         rep.add("bytes_out", ro.sess.delivered.len() as u64);
         if let Err(e) = dec::decode_both(&ro.sess.delivered, large, &ro.fed) {
-            rep.violation("stream:roundtrip", &e, case_json(cfg, &ro.sess, &format!("in={} out={}", ro.fed.len(), ro.sess.delivered.len())));
+            rep.violation(&format!("stream:roundtrip{}", len1), &e, case_json(cfg, &ro.sess, &format!("in={} out={}", ro.fed.len(), ro.sess.delivered.len())));
             return;
         }
         rep.count("roundtrip_ok");
@@ -731,7 +784,7 @@ fn judge_plan(cfg: &Cfg, ro: &RunOut, rep: &mut Report, c01: bool, c04: bool) {
                     return;
                 }
                 if !metadata_header_ok(prefix, m.out_len - m.md_len, m.md_len) {
-                    rep.violation("stream:metadata-header", "no well-formed RFC 7932 metadata header in front of the payload", case_json(cfg, &ro.sess, &format!("len={}", m.md_len)));
+                    rep.violation(&format!("stream:metadata-header{}", len1), "no well-formed RFC 7932 metadata header in front of the payload", case_json(cfg, &ro.sess, &format!("len={}", m.md_len)));
                     return;
                 }
             } else {
@@ -740,24 +793,21 @@ fn judge_plan(cfg: &Cfg, ro: &RunOut, rep: &mut Report, c01: bool, c04: bool) {
             }
             // both kinds leave the stream on a byte boundary with everything decodable
             if !(large && crate::gdec::available()) {
-                match dec::decode(prefix, expect.len() + (1 << 16)) {
-                    dec::DResult::NeedsMoreInput(v) => {
-                        if v != expect {
-                            rep.violation("stream:flush-prefix", &format!("streaming decoder yields {} bytes from the flushed prefix, {} were supplied (first diff {})", v.len(), expect.len(), dec::first_diff(&v, expect)), case_json(cfg, &ro.sess, &format!("mark kind {} out_len {}", m.kind, m.out_len)));
-                            return;
-                        }
-                    }
-                    other => {
-                        rep.violation("stream:flush-prefix", &format!("streaming decoder on the flushed prefix: {:?}", match other { dec::DResult::Ok(v) => format!("Ok({})", v.len()), dec::DResult::Error(v) => format!("Error after {}", v.len()), _ => "TooBig".into() }), case_json(cfg, &ro.sess, &format!("mark kind {} out_len {}", m.kind, m.out_len)));
-                        return;
-                    }
+                let (st, v) = decode_prefix(prefix, expect.len() + (1 << 16));
+                if st != 1 {
+                    rep.violation(&format!("stream:flush-prefix{}", len1), &format!("streaming decoder on the flushed prefix: {} after {} bytes", if st == 0 { "stream complete" } else { "error" }, v.len()), case_json(cfg, &ro.sess, &format!("mark kind {} out_len {}", m.kind, m.out_len)));
+                    return;
+                }
+                if v != expect {
+                    rep.violation(&format!("stream:flush-prefix{}", len1), &format!("streaming decoder yields {} bytes from the flushed prefix, {} were supplied (first diff {})", v.len(), expect.len(), dec::first_diff(&v, expect)), case_json(cfg, &ro.sess, &format!("mark kind {} out_len {}", m.kind, m.out_len)));
+                    return;
                 }
             }
             // byte boundary: prefix ++ (ISLAST=1, ISLASTEMPTY=1) is a complete stream
             let mut closed = prefix.to_vec();
             closed.push(3);
             if let Err(e) = dec::decode_both(&closed, large, expect) {
-                rep.violation("stream:flush-boundary", &format!("flushed prefix ++ 03 is not a complete stream of the input so far: {}", e), case_json(cfg, &ro.sess, &format!("mark kind {} out_len {}", m.kind, m.out_len)));
+                rep.violation(&format!("stream:flush-boundary{}", len1), &format!("flushed prefix ++ 03 is not a complete stream of the input so far: {}", e), case_json(cfg, &ro.sess, &format!("mark kind {} out_len {}", m.kind, m.out_len)));
                 return;
             }
         }
@@ -816,7 +866,7 @@ pub fn param_table_accepts(id: u32, val: u32) -> bool {
 pub fn check_contract(recs: &[Rec]) -> Option<(String, String)> {
     let mut finished_seen = false;
     for (i, r) in recs.iter().enumerate() {
-        if r.panicked { return Some((if spin_guard(&r.before, if let Call::Stream { op, .. } = &r.call { *op } else { 0 }, if let Call::Stream { data, .. } = &r.call { data.len() } else { 0 }) { "stream:livelock:metadata-q01-catable".into() } else { "stream:c20:panic".into() }, format!("call {} {} panicked / would not return", i, r.call.token().chars().take(60).collect::<String>()))); }
+        if r.panicked { return Some((if spin_guard(&r.before, if let Call::Stream { op, .. } = &r.call { *op } else { 0 }, if let Call::Stream { offered, .. } = &r.call { *offered } else { 0 }) { "stream:livelock:metadata-q01-catable".into() } else { "stream:c20:panic".into() }, format!("call {} {} panicked / would not return", i, r.call.token().chars().take(60).collect::<String>()))); }
         let a = alpha(&r.before);
         let b = alpha(&r.after);
         match &r.call {
@@ -826,9 +876,9 @@ pub fn check_contract(recs: &[Rec]) -> Option<(String, String)> {
                 if !r.ret && r.before != r.after { return Some(("stream:c20:params-not-frozen".into(), format!("call {}: refused set_parameter({},{}) changed the state", i, id, val))); }
                 if b != a { return Some(("stream:c20:set-parameter-state".into(), format!("call {}: set_parameter moved {:?} -> {:?}", i, a, b))); }
             }
-            Call::Stream { op, data, cap } => {
-                let acc = contract_accepts(a, *op, data.len());
-                if r.ret != acc { return Some((format!("stream:c20:return:{}", if acc { "refused-valid" } else { "accepted-violation" }), format!("call {}: compress_stream(op={}, in={}, cap={}) returned {} in {:?}", i, op, data.len(), cap, r.ret, a))); }
+            Call::Stream { op, data: _, offered, cap } => {
+                let acc = contract_accepts(a, *op, *offered);
+                if r.ret != acc { return Some((format!("stream:c20:return:{}", if acc { "refused-valid" } else { "accepted-violation" }), format!("call {}: compress_stream(op={}, in={}, cap={}) returned {} in {:?}", i, op, offered, cap, r.ret, a))); }
                 if !r.ret {
                     if r.consumed != 0 || !r.produced.is_empty() { return Some(("stream:c20:violation-not-clean".into(), format!("call {}: refused call consumed {} / produced {}", i, r.consumed, r.produced.len()))); }
                     let mut bf = r.before.clone();
@@ -836,8 +886,8 @@ pub fn check_contract(recs: &[Rec]) -> Option<(String, String)> {
                     if a != Contract::Fresh && !bf.same_but_hint(&r.after) { return Some(("stream:c20:violation-not-clean".into(), format!("call {}: refused call changed the state: {:?} -> {:?}", i, r.before, r.after))); }
                     if a == Contract::Fresh && (r.after.ip != 0 || r.after.ao != 0 || r.after.st != 0 || r.after.rm != u32::MAX) { return Some(("stream:c20:violation-not-clean".into(), format!("call {}: refused first call left a dirty state {:?}", i, r.after))); }
                 } else {
-                    if r.consumed > data.len() || r.produced.len() > *cap { return Some(("stream:c20:cursor".into(), format!("call {}: consumed {} of {}, produced {} of {}", i, r.consumed, data.len(), r.produced.len(), cap))); }
-                    if !contract_succ_ok(a, *op, data.len(), r.consumed, b) { return Some(("stream:c20:transition".into(), format!("call {}: compress_stream(op={}, in={}, cap={}) consumed {} and moved {:?} -> {:?}", i, op, data.len(), cap, r.consumed, a, b))); }
+                    if r.consumed > *offered || r.produced.len() > *cap { return Some(("stream:c20:cursor".into(), format!("call {}: consumed {} of {}, produced {} of {}", i, r.consumed, offered, r.produced.len(), cap))); }
+                    if !contract_succ_ok(a, *op, *offered, r.consumed, b) { return Some(("stream:c20:transition".into(), format!("call {}: compress_stream(op={}, in={}, cap={}) consumed {} and moved {:?} -> {:?}", i, op, offered, cap, r.consumed, a, b))); }
                     if r.before.le && r.consumed != 0 { return Some(("stream:c20:input-after-finish".into(), format!("call {}: consumed {} bytes after the last block was emitted", i, r.consumed))); }
                 }
                 if r.after.fin && r.after.more { return Some(("stream:c20:finished-with-output".into(), format!("call {}: is_finished with pending output", i))); }
@@ -869,7 +919,7 @@ fn check_completion(sess: &mut Session, op: u8, data: &[u8], cap: usize) -> Opti
     let mut pos = 0usize;
     let mut calls = 0usize;
     // every call with cap >= 1 must consume or produce at least one byte or complete
-    let bound = s0.ao + 2 * data.len() + 64 + (data.len() + s0.ao) * 3 / cap.max(1);
+    let bound = 100 + 4 * (data.len() + (s0.ip - s0.lf) as usize + s0.ao + 1024);
     loop {
         let op_now = op;
         let (ret, consumed, produced) = sess.stream(op_now, &data[pos..], cap);
@@ -936,9 +986,9 @@ pub fn corr_line(sess: &Session, full: bool) -> Option<(String, String)> {
                 ops.push_str(&format!(" T:{}", n));
                 ans.push(format!("{}:{}:{}", r.produced.len(), if full { hex(&r.produced) } else { "-".into() }, r.after.digest(full)));
             }
-            Call::Stream { op, data, cap } => {
+            Call::Stream { op, data, offered, cap } => {
                 if !evhook::HAVE { return None; }
-                let mut tok = format!(" C:{}:{}:{}", op, if full { hex(data) } else { format!("#{}", data.len()) }, cap);
+                let mut tok = format!(" C:{}:{}+{}:{}", op, if full { hex(data) } else { format!("#{}", data.len()) }, offered - data.len(), cap);
                 let mut reqs = String::new();
                 for (k, e) in r.events.iter().enumerate() {
                     let nbits = (e.out_size * 8 + e.cb_after as u64) as i64 - e.cb_before as i64;
@@ -974,6 +1024,11 @@ pub fn corr_line(sess: &Session, full: bool) -> Option<(String, String)> {
 // stages
 // ---------------------------------------------------------------------------------------------
 struct TaskOut { lines: Vec<(String, String)>, rep: Report }
+/// debugging aid: BV_ONLY=<task index> runs one task of a stage with recording forced on and
+/// prints its histories
+fn only() -> Option<usize> { std::env::var("BV_ONLY").ok().and_then(|x| x.parse().ok()) }
+fn skip_task(i: usize) -> bool { match only() { Some(k) => k != i, None => false } }
+fn dbg_history(tag: &str, s: &Session) { if only().is_some() { eprintln!("[{}] {}", tag, s.history_line()); } }
 
 fn stage_plans(args: &Args, n: usize, tag: u64, c01: bool, c04: bool) -> Vec<TaskOut> {
     let seed = args.seed;
@@ -982,6 +1037,8 @@ fn stage_plans(args: &Args, n: usize, tag: u64, c01: bool, c04: bool) -> Vec<Tas
         let mut rng = Rng::new(seed ^ tag ^ ((i as u64) << 20));
         let mut rep = Report::default();
         let mut lines = vec![];
+        if skip_task(i) { return TaskOut { lines, rep }; }
+        set_task(format!("replay: BV_ONLY={} bvh stream {} --seed {}", i, if tag == 0xC01 { "c01" } else { "c04" }, seed));
         let heavy = i % 24 == 7;
         let cfg = gen_cfg(&mut rng, heavy);
         let maxin = max_input_for(&cfg, &mut rng, thorough);
@@ -993,9 +1050,10 @@ fn stage_plans(args: &Args, n: usize, tag: u64, c01: bool, c04: bool) -> Vec<Tas
         let sched = if rng.chance(1, 4) { OutSched::ample() } else { gen_sched(&mut rng) };
         // tiny capacities on long inputs cost a call per byte: cap the product
         let sched = if total > 20000 && sched.caps.iter().all(|c| *c < 64) { OutSched { caps: vec![4096, 1, 70000], ..sched } } else { sched };
-        let record = total <= 12000;
+        let record = total <= 12000 || only().is_some();
         if std::env::var("BV_TRACE").is_ok() { eprintln!("task {} cfg {:?} total {} sched {}", i, cfg.sets, total, sched.desc()); }
         let ro = drive(&cfg, &reqs, &sched, record);
+        dbg_history("plan", &ro.sess);
         rep.count(&format!("input_style{}", style));
         rep.count(&format!("input_len_class_{}", match total { 0 => "0", 1..=3 => "1-3", 4..=64 => "4-64", 65..=16384 => "65-16K", _ => ">16K" }));
         rep.add("calls", ro.ncalls as u64);
@@ -1016,6 +1074,9 @@ fn stage_pairs(args: &Args, n: usize) -> Vec<TaskOut> {
         let mut rng = Rng::new(seed ^ 0xC05 ^ ((i as u64) << 20));
         let mut rep = Report::default();
         let mut lines = vec![];
+        if skip_task(i) { return TaskOut { lines, rep }; }
+        set_task(format!("replay: BV_ONLY={} bvh stream c05 --seed {}", i, seed));
+        let rec_all = only().is_some();
         let mut cfg = gen_cfg(&mut rng, false);
         let total = gen_len(&mut rng, if cfg.q >= 10 { 4000 } else { 40000 });
         let style = rng.below(8);
@@ -1030,7 +1091,8 @@ fn stage_pairs(args: &Args, n: usize) -> Vec<TaskOut> {
         let wf = rng.chance(1, 2);
         let wm = rng.chance(1, 4);
         let reqs = gen_reqs(&mut rng, total, style, wf, wm, true);
-        let ref_run = drive(&cfg, &reqs, &OutSched::ample(), total <= 3000);
+        let ref_run = drive(&cfg, &reqs, &OutSched::ample(), total <= 3000 || rec_all);
+        dbg_history("ref", &ref_run.sess);
         rep.evaluations += 1;
         if let Some((sig, what)) = &ref_run.fail { rep.violation(sig, what, case_json(&cfg, &ref_run.sess, "reference run of a pair")); return TaskOut { lines, rep }; }
         rep.nontrivial += 1;
@@ -1040,7 +1102,8 @@ fn stage_pairs(args: &Args, n: usize) -> Vec<TaskOut> {
             for v in 0..3 {
                 let sched = match v { 0 => OutSched { caps: vec![1], take_every: 0, take_sizes: vec![0] }, 1 => OutSched { caps: vec![0], take_every: 1, take_sizes: vec![0, 1, 16] }, _ => gen_sched(&mut rng) };
                 let sched = if total > 8000 && v < 2 { OutSched { caps: vec![if v == 0 { 1 } else { 0 }, 4096, 70000, 503], take_every: if v == 0 { 0 } else { 1 }, take_sizes: vec![0, 1, 5000] } } else { sched };
-                let other = drive(&cfg, &reqs, &sched, total <= 3000);
+                let other = drive(&cfg, &reqs, &sched, total <= 3000 || rec_all);
+                dbg_history("out-variant", &other.sess);
                 rep.count("pairs.out_slicing");
                 if let Some((sig, what)) = &other.fail { rep.violation(sig, what, case_json(&cfg, &other.sess, &sched.desc())); break; }
                 if other.sess.delivered != ref_run.sess.delivered {
@@ -1076,7 +1139,8 @@ fn stage_pairs(args: &Args, n: usize) -> Vec<TaskOut> {
                         o => { acc.extend_from_slice(&rq.data); flush_acc(&mut acc, &mut re, &mut rng, o); }
                     }
                 }
-                let other = drive(&cfg, &re, &gen_sched(&mut rng), total <= 3000);
+                let other = drive(&cfg, &re, &gen_sched(&mut rng), total <= 3000 || rec_all);
+                dbg_history("in-variant", &other.sess);
                 rep.count("pairs.in_chunking");
                 if let Some((sig, what)) = &other.fail { rep.violation(sig, what, case_json(&cfg, &other.sess, "re-chunked")); break; }
                 if other.sess.delivered != ref_run.sess.delivered {
@@ -1228,7 +1292,7 @@ fn run_corpus(rep: &mut Report, lines: &mut Vec<(String, String)>) {
             for t in l.split(' ') {
                 match Call::parse(t) {
                     Some(Call::Set(i, v)) => { s.set(i, v); }
-                    Some(Call::Stream { op, data, cap }) => { s.stream(op, &data, cap); }
+                    Some(Call::Stream { op, mut data, offered, cap }) => { data.resize(offered, 0); s.stream(op, &data, cap); }
                     Some(Call::Take(n)) => { s.take(n); }
                     None => {}
                 }
